@@ -55,7 +55,18 @@ EnumSizeTrees == { EnumAt(w, items, arr) : w \in {61, 62, 63, 64}, arr \in BOOLE
                      items \in { <<EI("X", 0)>>, <<EI("X", 0), EI("Y", 1)>>, <<EI("X", 0), EI("Y", 3)>>, <<EI("Y", 3), EI("X", 0)>>,
                                  <<EI("X", 2), EI("Y", 3)>> } }
 
+(* one struct type instantiated several times in one message (sibling fields, array elements, a diamond), the type itself holding
+   a struct: 8..160 bits around the limit.  A walk that marks (struct, field) pairs as visited takes the second instance for a cycle *)
+Reuse(lw, ta, tb) ==
+    [structs |-> <<Sx("L", <<Fd("x", 0, lw)>>), Sx("M", <<[name |-> "p", id |-> 0, type |-> St("L")]>>),
+                   Sx("A", <<[name |-> "a", id |-> 0, type |-> ta]>> \o tb)>>,
+     enums |-> <<>>, impls |-> <<Im("A", "can", "A", 1)>>, services |-> <<>>, devices |-> <<>>]
+ReuseTrees == { Reuse(lw, ta, tb) : lw \in {8, 16, 40}, ta \in {St("M"), Arr(St("M"), 2), Arr(St("M"), 4)},
+                  tb \in { <<>>, <<[name |-> "b", id |-> 1, type |-> St("M")]>>, <<[name |-> "b", id |-> 1, type |-> St("L")]>>,
+                           <<[name |-> "b", id |-> 1, type |-> Arr(Arr(St("M"), 1), 2)]>> } }
+WholeTrees == EnumSizeTrees \cup ReuseTrees
+
 Trees == { [structs |-> sl, enums |-> el, impls |-> il, services |-> dv.services, devices |-> dv.devices] :
               sl \in StructLists, el \in EnumLists, il \in ImplLists, dv \in DevVariants }
-         \cup EnumSizeTrees
+         \cup WholeTrees
 =============================================================================
